@@ -391,6 +391,39 @@ class Evaluator:
                 f"effect analysis: unsupported statement {type(s).__name__} "
                 f"at {rel}:{s.lineno}")
 
+    def _module_constant(self, rel, name):
+        """value of a module-level constant of `rel` that folds to concrete
+        items (literal tables, itertools products of literals), else None"""
+        cache = self.__dict__.setdefault("_modconst", {})
+        key = (rel, name)
+        if key in cache:
+            return cache[key]
+        cache[key] = None
+        try:
+            node = self.repo.module_assign(rel, name, missing_ok=True)
+        except Exception:
+            node = None
+        if node is not None and self.depth < self.MAX_DEPTH:
+            self.depth += 1
+            try:
+                outs = list(self._expr(node, State(), rel))
+            except Exception:
+                outs = []
+            finally:
+                self.depth -= 1
+            if len(outs) == 1:
+                v = outs[0][1]
+
+                def concrete(v_):
+                    if v_.kind == "const":
+                        return True
+                    return v_.kind in ("tuple", "list") and isinstance(
+                        v_.val, (list, tuple)) and all(
+                        isinstance(e_, V) and concrete(e_) for e_ in v_.val)
+                if not v.prov and concrete(v):
+                    cache[key] = v
+        return cache[key]
+
     def _generator_items(self, call, st, rel):
         """values yielded by a call of a package generator function whose
         body folds to one path with concrete items (e.g. nested loops over
@@ -666,7 +699,11 @@ class Evaluator:
                     yield st, const({"True": True, "False": False,
                                      "None": None}[e.id])
                 else:
-                    yield st, V("unknown", ("global", e.id))
+                    g = self._module_constant(rel, e.id)
+                    if g is not None:
+                        yield st, g
+                    else:
+                        yield st, V("unknown", ("global", e.id))
         elif isinstance(e, (ast.List, ast.Tuple)):
             kind = "list" if isinstance(e, ast.List) else "tuple"
             sts = [(st, [])]
@@ -899,6 +936,39 @@ class Evaluator:
             cur.diag_depth -= 1
             yield cur, const(None)
             return
+        # itertools tables over literal items fold to concrete lists
+        if name.split(".")[-1] in ("permutations", "product",
+                                   "combinations") and (
+                name.startswith("itertools.") or "." not in name) \
+                and not e.keywords:
+            folded = False
+            for st2, (args, kwargs) in self._args(e, st, rel):
+                items = [self._concrete_items(a) for a in args]
+                import itertools as _it
+                combos = None
+                try:
+                    if name.endswith("product") and all(
+                            i is not None and all(x.kind == "const"
+                                                  for x in i)
+                            for i in items):
+                        combos = list(_it.product(*[[x.val for x in i]
+                                                    for i in items]))
+                    elif not name.endswith("product") and items \
+                            and items[0] is not None and all(
+                                x.kind == "const" for x in items[0]) \
+                            and all(a.kind == "const" for a in args[1:]):
+                        fn_ = getattr(_it, name.split(".")[-1])
+                        combos = list(fn_([x.val for x in items[0]],
+                                          *[a.val for a in args[1:]]))
+                except Exception:
+                    combos = None
+                if combos is None:
+                    break
+                folded = True
+                yield st2, V("list", [V("tuple", [const(x) for x in c_])
+                                      for c_ in combos])
+            if folded:
+                return
         # evaluate receiver for method calls on special objects
         if isinstance(e.func, ast.Attribute):
             for st2, recv in self._expr(e.func.value, st, rel):
